@@ -129,7 +129,13 @@ def _has_invalid_pin_cite(
         return False
 
     # parse full cite page
-    page = int(full_cite.groups["page"])
+    try:
+        page = int(full_cite.groups["page"])
+    except ValueError:
+        # more digits than int() converts (sys.get_int_max_str_digits()):
+        # such a page lies beyond any pin cite, so the pin cite can't be
+        # correct
+        return True
 
     # parse short cite pin
     m = re.match(r"(?:at )?(\d+)", id_cite.metadata.pin_cite)
